@@ -66,6 +66,9 @@ enum FileFault {
     OtherRun { file: usize },
     DupInitialTimestamp { a: usize, b: usize },
     UnknownExtension { file: usize, ext: String },
+    /// the same file is named twice on the command line (overlapping shell patterns): two
+    /// arguments with the same initial timestamp
+    SameFileTwice { file: usize },
 }
 impl FileFault {
     fn kind(&self) -> &'static str {
@@ -73,6 +76,7 @@ impl FileFault {
             FileFault::OtherRun { .. } => "file_of_other_run",
             FileFault::DupInitialTimestamp { .. } => "duplicate_initial_timestamp",
             FileFault::UnknownExtension { .. } => "unknown_extension",
+            FileFault::SameFileTwice { .. } => "same_file_named_twice",
         }
     }
 }
@@ -389,7 +393,8 @@ impl Check for C19Check {
             cfgs.push(RunCfg { argv_seed: r.next_u64(), threads: *r.pick(&[1u32, 2, 5, 16]), sched_seed: 0, hash_seed: r.next_u64() >> 1, verbose: false, real_rayon: true, sched_replay: None, io_seed: None, io_hard: None });
         }
         let file_fault = if index % 7 == 3 {
-            Some(match r.below(3) {
+            Some(match r.below(4) {
+                3 => FileFault::SameFileTwice { file: r.usize(0, nf - 1) },
                 0 => FileFault::OtherRun { file: r.usize(0, nf - 1) },
                 1 if nf >= 2 => {
                     let a = r.usize(0, nf - 2);
@@ -459,11 +464,16 @@ impl Check for C19Check {
                 4 => format!("r\u{fc}n_f{k}.MID"),
                 // a name that is not UTF-8 (U+E000 stands for the byte 0xFF, see procsim::os_path)
                 5 => format!("r\u{E000}n_f{k}"),
+                // every file of the run has the SAME name, each in a directory of its own
+                6 => format!("d{k}/data"),
                 _ => format!("run_f{k}"),
             }
         };
         if stem_form < 6 {
             stats.probe("file_names_with_unusual_stem");
+        }
+        if stem_form == 6 {
+            stats.probe("files_with_equal_names_in_different_directories");
         }
         if stem_form == 5 {
             stats.probe("file_names_not_utf8");
@@ -598,13 +608,24 @@ impl Check for C19Check {
                 stats.probe("lz4_file");
             }
         }
+        if let Some(FileFault::SameFileTwice { file }) = &scn.file_fault {
+            if *file < paths.len() {
+                paths.push(paths[*file].clone());
+                names.push(names[*file].clone());
+                stats.fault("same_file_named_twice");
+            }
+        }
         // operator-level variation of how the same files are NAMED on the command line (decided by
         // the configuration's argv seed): absolute, relative to the working directory, "./name",
         // through a dotted sub-directory and "..", through a symbolic link
         let _ = std::fs::create_dir_all(scratch.dir.join("sub.dir.mid"));
         let _ = std::fs::create_dir_all(scratch.dir.join("lnk.d"));
         for n in &names {
-            let _ = std::os::unix::fs::symlink(scratch.dir.join(os_path(n)), scratch.dir.join("lnk.d").join(os_path(n)));
+            let link = scratch.dir.join("lnk.d").join(os_path(n));
+            if let Some(parent) = link.parent() {
+                let _ = std::fs::create_dir_all(parent);
+            }
+            let _ = std::os::unix::fs::symlink(scratch.dir.join(os_path(n)), link);
         }
         let path_form = |argv_seed: u64, k: usize| -> std::path::PathBuf {
             match (argv_seed >> 7) % 6 {
@@ -989,6 +1010,7 @@ fn stats_fault_active(scn: &Scn, built: &Built) -> bool {
         Some(FileFault::OtherRun { file }) => *file < built.files.len() && built.files.len() >= 2,
         Some(FileFault::DupInitialTimestamp { a, b }) => *a < built.files.len() && *b < built.files.len() && a != b,
         Some(FileFault::UnknownExtension { file, .. }) => *file < built.files.len(),
+        Some(FileFault::SameFileTwice { file }) => *file < built.files.len(),
         None => false,
     }
 }
